@@ -88,6 +88,56 @@ def gen(ctx, alias_p=0.04):
     return case, aliased
 
 
+def deferred_temporaries(ctx, n):
+    """Capture-stage snapshots: watches and log fields produce FRESH values (really evaluated), the frame moves on, and the
+    value returned later is allocated afterwards.  Nothing the capture refers to may resolve to a watch's value."""
+    from deep.api.tracepoint.trigger import LocationAction, Trigger, LineLocation, FunctionLocation, Location
+    from ..lib import e2
+    rng = ctx.rng
+    for k in range(n):
+        world = e2.World(logger=True, spans=0, metrics=0)
+        world.clear_pending()
+        nw = rng.choice([2, 4, 8])
+        watches = ["base * %d.5" % i for i in range(1, nw + 1)]
+        stage = rng.choice(["method_capture", "line_capture"])
+        conf = {"fire_count": "-1", "fire_period": "0", "frame_type": "single_frame", "watches": watches, "stage": stage,
+                "log_msg": rng.choice([None, "v={base * 7.25} {base * 9.75}"])}
+        action = LocationAction("tp-cap", None, conf, LocationAction.ActionType.Snapshot)
+        loc = FunctionLocation("m.py", "f", Location.Position.CAPTURE) if stage == "method_capture" else LineLocation("m.py", 7, Location.Position.CAPTURE)
+        world.install([Trigger(loc, [action])])
+        fr = e2.mk_frame("/app/m.py", "f", 7, {"base": float(rng.randrange(3, 50))})
+        world.event(fr, "call" if stage == "method_capture" else "line")
+        fr.f_lineno = 9
+        base = fr.f_locals["base"]
+        ret = [base * (j + 0.125) for j in range(nw + 4)]          # allocated AFTER the watches were evaluated
+        world.event(fr, "return", ret)
+        snaps = [p for w, _t, _i, p in world.log if w == "snapshot"]
+        j = dict(deferred=True, stage=stage, watches=watches, log=conf["log_msg"])
+        ctx.case(j, nontrivial=True, bucket="deferred-temporaries")
+        if len(snaps) != 1:
+            ctx.fail("%d snapshots for a %s tracepoint" % (len(snaps), stage), j, tag="snapshot-lost")
+            continue
+        s_ = snaps[0]
+        cap = [w for w in s_.watches if w.source == "CAPTURE"]
+        if not cap or cap[0].result is None:
+            ctx.fail("no captured value on the deferred snapshot", j, tag="no-capture")
+            continue
+        root = s_.var_lookup.get(cap[0].result.vid)
+        if root is None:
+            ctx.fail("captured value refers to id %r which is not in the table" % cap[0].result.vid, j, tag="dangling")
+            continue
+        for child in root.children:
+            ent = s_.var_lookup.get(child.vid)
+            want = ret[int(child.name)]
+            if ent is None:
+                ctx.fail("element %s of the returned list refers to a missing id" % child.name, j, tag="dangling")
+            elif ent.value != str(want) or str(ent.hash) != str(id(want)):
+                ctx.fail("element %s of the returned list (%r) resolves to the entry of another object (%s %r): two objects share an id" % (
+                    child.name, want, ent.type, ent.value), j, tag="wrong-object")
+                break
+        world.clear_pending()
+
+
 def run(ctx):
     import logging
     logging.getLogger("deep").setLevel(logging.CRITICAL + 1)
@@ -136,6 +186,7 @@ def run(ctx):
     finally:
         e1.restore_clock(saved)
     ctx.correspond("collector", e1.IMPORTS, "snap_case", "check_snap_case", lits, cj, shard=60)
+    deferred_temporaries(ctx, 120 if ctx.thorough else 25)
 
 
 def replay(ctx, data):
